@@ -9,7 +9,7 @@ from py_gql._string_utils import index_to_loc, LINE_SEPARATOR
 from py_gql.exc import ResolverError
 from py_gql.execution import Executor
 from py_gql.lang import parse
-from py_gql.schema import Field, Float, Int, ListType, NonNullType, ObjectType, Schema, String
+from py_gql.schema import Argument, Field, Float, Int, ListType, NonNullType, ObjectType, Schema, String
 from harness import gqlworld as G
 from oracles import ref_exec as RX
 
@@ -166,7 +166,9 @@ STAGES = ("parse", "validate", "operation-selection", "variable-coercion", "reso
           # (appended) a nullable variable with a default may feed `if: Boolean!`; an explicit null for it passes validation and variable coercion and fails when the directive is evaluated
           "directive-null-root", "directive-null-root-fragment", "directive-null-nested", "directive-null-mutation",
           # (appended) a leaf whose SERIALISED value is null although the resolved value is not (a custom scalar's serialize returning None)
-          "serialized-null")
+          "serialized-null",
+          # (appended) rejected variable values that contain characters with a meaning for message formatting (% { } \)
+          "variable-coercion-percent", "variable-coercion-braces")
 
 
 def failure_schema(msg, ext, own_path=False):
@@ -181,6 +183,7 @@ def failure_schema(msg, ext, own_path=False):
     q = ObjectType("Query", [
         Field("o", obj), Field("l", ListType(obj)), Field("bad", Int, resolver=boom), Field("nn", NonNullType(Int)),
         Field("sn", NonNullType(maybe)), Field("sl", ListType(NonNullType(maybe))), Field("sm", maybe),
+        Field("arg", Int, args=[Argument("i", Int), Argument("l", ListType(Int))]),
         Field("f", Float), Field("fs", ListType(Float)), Field("a", Int), Field("s", String),
     ])
     if msg == "<mutation root>":
@@ -239,6 +242,8 @@ def _failures(stage: int, m: int, cfg: int, ext: int, ast: bool = False, own_pat
             "directive-null-nested": ("query ($v: Boolean = true) { a o { x @include(if: $v) } l { x } }", {"v": None}, None, None),
             "directive-null-mutation": ("mutation ($v: Boolean = true) { a ...F @skip(if: $v) } fragment F on Query { s }", {"v": None}, None, None),
             "serialized-null": ("{ a sn sm o { x sn sm } sl }", None, None, True),
+            "variable-coercion-percent": ("query ($v: Int!, $w: [Int], $s: Boolean!) { arg(i: $v, l: $w) a @skip(if: $s) }", {"v": "10%", "w": ["%s", 1, "%d%%", "%(x)s"], "s": {"%": "%5"}}, None, None),
+            "variable-coercion-braces": ("query ($v: Int!, $w: [Int]) { arg(i: $v, l: $w) a }", {"v": "{0} {} {x!r} \\ \"", "w": {"{": "}"}}, None, None),
         }[ST]
         if ST == "subscription-operation" and known.c10_subscription_through_query_entry_point():
             return result(True, False)
@@ -252,6 +257,10 @@ def _failures(stage: int, m: int, cfg: int, ext: int, ast: bool = False, own_pat
             res = process_graphql_query(schema, document, executor_cls=Executor, **kw)
         resp = res.response()
         problem = check_response(resp, query, expect_data, allow_nan=ST.startswith("float") and known.c10_nonfinite_floats())
+        if not problem and ST.startswith("variable-coercion-") and ST not in ("variable-coercion-multi",):
+            # anti-vacuity: the request really got as far as variable coercion and was refused there
+            if not any("ariable" in str(e.get("message")) and "invalid value" in str(e.get("message")) for e in resp.get("errors", [])):
+                problem = "the request was not refused at variable coercion: %r" % (resp,)
         if not problem and expect_data and not ST.startswith("float"):
             # every null in a failing position is matched by exactly one error with that path, and vice versa
             nulls = sorted(nulls_in(resp["data"]), key=repr)
@@ -337,7 +346,7 @@ CONDITIONS = [
     ),
     Cond(
         name="failures", fn=_failures, quick=60, thorough=120, shards_quick=4, shards_thorough=4,
-        bound="19 failure stages (a null variable for @skip / @include at the root, in a root fragment, nested, in a mutation; a subscription / a mutation operation sent to a schema or entry point that does not serve it, parse, validate, operation selection, variable coercion with one / several errors, validation errors with several nodes / several errors over several lines, resolver error, non-null, list item, "
+        bound="22 failure stages (rejected variable values containing % / braces; a null variable for @skip / @include at the root, in a root fragment, nested, in a mutation; a subscription / a mutation operation sent to a schema or entry point that does not serve it, parse, validate, operation selection, variable coercion with one / several errors, validation errors with several nodes / several errors over several lines, resolver error, non-null, list item, "
               "NaN, infinities, extensions) x 4 resolver-error messages (incl. empty, quotes/backslash/newline, long) x 2 executors x resolver-supplied extensions (none, dict, empty dict, and for the resolver-error stages mappingproxy / OrderedDict / UserDict / ChainMap) x request given as text or as a parsed document x resolver errors built plainly or with a `path` argument of their own (the response path is the field's)",
         symbolic={"stage": "choice", "m": "choice: message", "cfg": "choice: BlockingExecutor / Executor", "ext": "choice: kind of Mapping given as extensions", "ast": "choice: text / parsed document", "own_path": "choice: the error carries a path already"},
         witness={"stage": 4, "m": 0, "cfg": 0, "ext": 0, "ast": False, "own_path": False},
